@@ -1067,17 +1067,19 @@ impl Walrus {
 
                 // Handle trimming
                 let mut final_data = data_slice.to_vec();
+                let mut trimmed_away = false;
                 if initial_trim > 0 {
                     if initial_trim < final_data.len() {
                         final_data = final_data[initial_trim..].to_vec();
                     } else {
                         final_data.clear();
+                        trimmed_away = true;
                     }
                     initial_trim = 0; // Only for first entry
                 }
 
-                // Add to results
-                if !final_data.is_empty() {
+                // Add to results (an empty payload is still an entry; only a trimmed-away one is dropped)
+                if !trimmed_away {
                     // Extract topic_id and chunk_idx from the payload prefix for logging
                     if final_data.len() >= 9 {
                         let t_idx = final_data[0];
